@@ -6,7 +6,7 @@
    checked on every run by the k-spellings and slot-sweep streams. *)
 From Coq Require Import List NArith ZArith Bool.
 From JP Require Import Base Ast Eval ValueModel Spec Known WellFormed Regex SpellFacts SpecSteps
-  Build FragParse FragBuild FragWs FragWsBuild.
+  Build FragParse FragBuild FragWs FragWsBuild Entry DataFacts SelFacts Purity GenParse GenBuild FilterParse FilterBuild StringLevel.
 Import ListNotations.
 Open Scope Z_scope.
 
@@ -36,6 +36,33 @@ Qed.
 
 (* .* and [*], ..name and ..['name'] are the same AST by construction of the parser (C06's
    recogniser builds SegSel SelWild for both); nothing to prove at the semantic level *)
+
+
+(* ... and at STRING level, through the whole pipeline: for every logical expression e of the filter tower (any
+   nesting depth, function calls included) the texts `$[?e]` and `$[?(e)]` select the same nodes in the same order *)
+Theorem C13_string_level_parens : forall n (e : list (list (xatom (SelT n)))) (d : json),
+  eok (SelT n) (sokT n) e -> egood (SelT n) (sgoodT lit_arg n) (sastT n) lit_arg e -> wf_json d = true ->
+  exists ps1 ps2,
+    api_with_path (36%N :: 91%N :: filter_text (SelT n) (stextT n) e ++ [93%N]) d
+      = Some (map (fun p => (inner p, path p)) ps1)
+    /\ api_with_path (36%N :: 91%N :: 63%N :: 40%N :: or_text (SelT n) (stextT n) e ++ [41%N; 93%N]) d
+      = Some (map (fun p => (inner p, path p)) ps2)
+    /\ map node_of ps1 = map node_of ps2.
+Proof. exact parens_string_level. Qed.
+Print Assumptions C13_string_level_parens.
+
+
+(* `.name` and `['name']` at STRING level, for every shorthand name (any length, any of the characters the RFC
+   allows in a shorthand): the two texts go through different rules of the generated grammar and different arms of
+   parser.rs, and select the same nodes in the same order on every document *)
+Theorem C13_string_level_shorthand : forall n (d : json),
+  name_ok n -> wf_json d = true ->
+  exists ps1 ps2,
+    api_with_path (36%N :: 46%N :: n) d = Some (map (fun p => (inner p, path p)) ps1)
+    /\ api_with_path (36%N :: 91%N :: 39%N :: n ++ [39%N; 93%N]) d = Some (map (fun p => (inner p, path p)) ps2)
+    /\ map node_of ps1 = map node_of ps2.
+Proof. exact shorthand_string_level. Qed.
+Print Assumptions C13_string_level_shorthand.
 
 (* integer and float spellings of one number (100, 1e2, 100.0) compare alike, on either side of
    every operator, against every operand *)
